@@ -66,7 +66,7 @@ func (u *Unit) rtypeOfTag(tag string) string {
 
 func (u *Unit) tagOfRtype(t string) string {
 	_, ub := u.w.boxFn("TypeTag")
-	return fmt.Sprintf("(%s (val %s))", ub, t)
+	return fmt.Sprintf("(%s (ival %s))", ub, t)
 }
 
 func kindIn(k string, ks ...int) string {
@@ -118,7 +118,7 @@ func init() {
 	reg("reflect.TypeOf", "reflect.TypeOf(x): nil for a nil interface, otherwise the identity of the dynamic type", func(fr *Frame, st *State, callee *ssa.Function, args []*Val, pos token.Pos, resTy types.Type) *Val {
 		u := fr.u
 		x := args[0].T
-		t := ite(fmt.Sprintf("(= (typ %s) T_nil)", x), "nilIface", u.rtypeOfTag(fmt.Sprintf("(typ %s)", x)))
+		t := ite(fmt.Sprintf("(= (ityp %s) T_nil)", x), "nilIface", u.rtypeOfTag(fmt.Sprintf("(ityp %s)", x)))
 		return term(t, resTy)
 	})
 	reg("reflect.ValueOf", "reflect.ValueOf(x): invalid Value iff x is nil; Type() is the dynamic type; Interface() returns x", func(fr *Frame, st *State, callee *ssa.Function, args []*Val, pos token.Pos, resTy types.Type) *Val {
@@ -138,8 +138,8 @@ func init() {
 		ck := "rvof:" + x
 		if !u.frameDone[ck] {
 			u.frameDone[ck] = true
-			u.fact(eq(app("rv_valid", v), fmt.Sprintf("(distinct (typ %s) T_nil)", x)))
-			u.fact(eq(app("rv_type", v), fmt.Sprintf("(typ %s)", x)))
+			u.fact(eq(app("rv_valid", v), fmt.Sprintf("(distinct (ityp %s) T_nil)", x)))
+			u.fact(eq(app("rv_type", v), fmt.Sprintf("(ityp %s)", x)))
 			u.fact(eq(app("rv_iface", v), x))
 			u.fact(not(app("rv_canset", v)))
 		}
@@ -174,14 +174,14 @@ func init() {
 		u.fn("rv_type", []string{"RV"}, "TypeTag")
 		u.fn("rv_iface", []string{"RV"}, "Iface")
 		tt := u.tagOfRtype(t)
-		u.libpre(fr, st, "reflect.Value.Convert", and(app("rv_valid", v), fmt.Sprintf("(distinct (typ %s) T_nil)", t), u.convertibleDef(app("rv_type", v), tt)), pos, "reflect: Convert of a value that is not convertible panics")
+		u.libpre(fr, st, "reflect.Value.Convert", and(app("rv_valid", v), fmt.Sprintf("(distinct (ityp %s) T_nil)", t), u.convertibleDef(app("rv_type", v), tt)), pos, "reflect: Convert of a value that is not convertible panics")
 		r := u.w.newConst("rvconv", "RV")
 		u.fact(app("rv_valid", r))
 		u.fact(eq(app("rv_type", r), tt))
-		u.fact(eq(fmt.Sprintf("(typ (rv_iface %s))", r), tt))
+		u.fact(eq(fmt.Sprintf("(ityp (rv_iface %s))", r), tt))
 		// value semantics for the scalar targets
-		src := fmt.Sprintf("(val (rv_iface %s))", v)
-		dst := fmt.Sprintf("(val (rv_iface %s))", r)
+		src := fmt.Sprintf("(ival (rv_iface %s))", v)
+		dst := fmt.Sprintf("(ival (rv_iface %s))", r)
 		kf := fmt.Sprintf("(kind (rv_type %s))", v)
 		kt := fmt.Sprintf("(kind %s)", tt)
 		_, ubI := u.w.boxFn("Int")
@@ -208,7 +208,7 @@ func init() {
 				u.libpre(fr, st, "reflect.Value."+name, kindIn(rvKind(u, v), kinds...), pos, "reflect: "+name+" on a value of the wrong kind panics")
 			}
 			_, ub := u.w.boxFn(srt)
-			r := fr.named(callee.Params[0], fmt.Sprintf("(%s (val (rv_iface %s)))", ub, v), ty)
+			r := fr.named(callee.Params[0], fmt.Sprintf("(%s (ival (rv_iface %s)))", ub, v), ty)
 			for _, f := range u.wfFacts(st, r.T, ty, 0) {
 				u.fact(f)
 			}
@@ -283,23 +283,23 @@ func init() {
 	reg("fmt.Errorf", "fmt.Errorf: total; returns a non-nil error that is not a *ConstraintError; it wraps a *ConstraintError only if the format contains %w", func(fr *Frame, st *State, callee *ssa.Function, args []*Val, pos token.Pos, resTy types.Type) *Val {
 		u := fr.u
 		e := u.w.newConst("errorf", "Iface")
-		u.fact(fmt.Sprintf("(distinct (typ %s) T_nil)", e))
-		u.fact(fmt.Sprintf("(distinct (typ %s) %s)", e, u.ceTag()))
+		u.fact(fmt.Sprintf("(distinct (ityp %s) T_nil)", e))
+		u.fact(fmt.Sprintf("(distinct (ityp %s) %s)", e, u.ceTag()))
 		tw, te := u.w.opaqueTag("*fmt.wrapError", 22), u.w.opaqueTag("*errors.errorString", 22)
-		u.fact(fmt.Sprintf("(or (= (typ %s) %s) (= (typ %s) %s))", e, tw, e, te))
+		u.fact(fmt.Sprintf("(or (= (ityp %s) %s) (= (ityp %s) %s))", e, tw, e, te))
 		_, ub := u.w.boxFn("Ref")
-		u.fact(fmt.Sprintf("(>= (birth (%s (val %s))) %s)", ub, e, st.now))
+		u.fact(fmt.Sprintf("(>= (birth (%s (ival %s))) %s)", ub, e, st.now))
 		fr.bumpNow(st)
 		if !fr.formatHas(args[0], "%w") {
 			u.fact(not(app(u.fn("as_ce_ok", []string{"Iface"}, "Bool"), e)))
-			u.fact(fmt.Sprintf("(= (typ %s) %s)", e, te))
+			u.fact(fmt.Sprintf("(= (ityp %s) %s)", e, te))
 		}
 		return term(e, resTy)
 	})
 	reg("errors.New", "errors.New: non-nil error that is not a *ConstraintError", func(fr *Frame, st *State, callee *ssa.Function, args []*Val, pos token.Pos, resTy types.Type) *Val {
 		u := fr.u
 		e := u.w.newConst("errnew", "Iface")
-		u.fact(fmt.Sprintf("(= (typ %s) %s)", e, u.w.opaqueTag("*errors.errorString", 22)))
+		u.fact(fmt.Sprintf("(= (ityp %s) %s)", e, u.w.opaqueTag("*errors.errorString", 22)))
 		u.fact(not(app(u.fn("as_ce_ok", []string{"Iface"}, "Bool"), e)))
 		return term(e, resTy)
 	})
@@ -320,8 +320,8 @@ func init() {
 		v := app(u.fn("parseint_val", []string{"Str"}, "Int"), s)
 		u.fact(and(fmt.Sprintf("(<= (- 9223372036854775808) %s)", v), fmt.Sprintf("(<= %s 9223372036854775807)", v)))
 		e := u.w.newConst("parseerr", "Iface")
-		u.fact(eq(fmt.Sprintf("(= (typ %s) T_nil)", e), ok))
-		u.fact(implies(not(ok), and(fmt.Sprintf("(= (typ %s) %s)", e, u.w.opaqueTag("*strconv.NumError", 22)), not(app(u.fn("as_ce_ok", []string{"Iface"}, "Bool"), e)))))
+		u.fact(eq(fmt.Sprintf("(= (ityp %s) T_nil)", e), ok))
+		u.fact(implies(not(ok), and(fmt.Sprintf("(= (ityp %s) %s)", e, u.w.opaqueTag("*strconv.NumError", 22)), not(app(u.fn("as_ce_ok", []string{"Iface"}, "Bool"), e)))))
 		u.fact(implies(ok, eq(e, "nilIface")))
 		r := u.w.newConst("parsed", "Int")
 		u.fact(eq(r, ite(ok, v, "0")))
@@ -334,8 +334,8 @@ func init() {
 		ok := app(u.fn("parsefloat_ok", []string{"Str"}, "Bool"), s)
 		v := app(u.fn("parsefloat_val", []string{"Str"}, F64), s)
 		e := u.w.newConst("parseerr", "Iface")
-		u.fact(eq(fmt.Sprintf("(= (typ %s) T_nil)", e), ok))
-		u.fact(implies(not(ok), and(fmt.Sprintf("(= (typ %s) %s)", e, u.w.opaqueTag("*strconv.NumError", 22)), not(app(u.fn("as_ce_ok", []string{"Iface"}, "Bool"), e)))))
+		u.fact(eq(fmt.Sprintf("(= (ityp %s) T_nil)", e), ok))
+		u.fact(implies(not(ok), and(fmt.Sprintf("(= (ityp %s) %s)", e, u.w.opaqueTag("*strconv.NumError", 22)), not(app(u.fn("as_ce_ok", []string{"Iface"}, "Bool"), e)))))
 		u.fact(implies(ok, eq(e, "nilIface")))
 		r := u.w.newConst("parsedf", F64)
 		u.fact(implies(ok, eq(r, v)))
@@ -353,12 +353,13 @@ func init() {
 		v := app(valf, err)
 		_, ub := u.w.boxFn("Ref")
 		ce := u.ceTag()
-		u.fact(implies(fmt.Sprintf("(= (typ %s) T_nil)", err), not(ok)))
-		u.fact(implies(fmt.Sprintf("(= (typ %s) %s)", err, ce), and(ok, eq(v, fmt.Sprintf("(%s (val %s))", ub, err)))))
+		u.fact(implies(fmt.Sprintf("(= (ityp %s) T_nil)", err), not(ok)))
+		u.fact(implies(fmt.Sprintf("(= (ityp %s) %s)", err, ce), and(ok, eq(v, fmt.Sprintf("(%s (ival %s))", ub, err)))))
 		u.fact(fmt.Sprintf("(< (birth %s) %s)", v, st.now))
+		u.fact(implies(ok, fmt.Sprintf("(distinct %s nil)", v)))
 		// target: args[1] is any(&c) : an interface holding **ConstraintError
 		tgt := args[1].T
-		ptr := fmt.Sprintf("(%s (val %s))", ub, tgt)
+		ptr := fmt.Sprintf("(%s (ival %s))", ub, tgt)
 		cet := u.eng.ceType()
 		if cet == nil {
 			u.unsupportedf("errors.As: ConstraintError type not found")
